@@ -27,7 +27,10 @@ RULE = (
     "hand-over window (around mp_RLock / Array creation) and at line level inside lock_tty_wrapper / "
     "_process_start_wrapper / _process_run_wrapper; every probe logs [enter, exit] stamps taken inside its body "
     "from CLOCK_MONOTONIC; the merged logs are swept offline for overlapping intervals of different (pid, tid) "
-    "and every query must have received exactly its own reply; distinct = distinct run configurations"
+    "and every query must have received exactly its own reply; after their first batch of operations all "
+    "processes of the tree rendezvous (ready files) and run a second batch while the whole tree is alive, so that "
+    "root, children and grandchildren are demonstrably at work simultaneously (counted per pair and start "
+    "method); distinct = distinct run configurations"
 )
 ASSUMPTIONS = [
     "interval stamps are taken inside the synchronized body, so two overlapping intervals of different threads or "
@@ -35,7 +38,7 @@ ASSUMPTIONS = [
     "Process.start() is never issued from inside a synchronized call (documented as unsupported)",
     "a run that does not finish within its watchdog is inconclusive, not a violation",
 ]
-MIN_EVENTS = {"probe intervals swept": {"quick": 8000, "thorough": 250000}, "queries matched with their reply": {"quick": 1500, "thorough": 50000}}
+MIN_EVENTS = {"probe intervals swept": {"quick": 8000, "thorough": 250000}, "queries matched with their reply": {"quick": 1500, "thorough": 50000}, "process pairs at work simultaneously": {"quick": 60, "thorough": 4000}}
 METHODS = ["fork", "spawn", "forkserver"]
 
 
@@ -49,12 +52,13 @@ def plan(tier, seed):
             children=rnd.choice([0, 1, 1, 2, 3]),
             child_threads=rnd.randint(0, 3),
             grandchildren=rnd.choice([0, 0, 1]),
-            depth=1,
+            depth=2,
             ops=rnd.choice([20, 40, 60]),
             delays=rnd.random() < 0.7,
             line_yields=rnd.random() < 0.6,
             concurrent_starts=rnd.random() < 0.5,
         )
+        cfg["expect_procs"] = 1 + cfg["children"] * (1 + cfg["grandchildren"]) if rnd.random() < 0.75 else 0
         shards.append(dict(persona="other", persona_kw=dict(name="foot", version="1.16.2", xtversion=True), seed=seed, index=i, cfg=cfg, winsize=[80, 24, 640, 384]))
     return shards
 
@@ -158,8 +162,10 @@ def run_shard(shard, env):
         try:
             # every hammering thread is a daemon: the main thread only supervises, so that a
             # deadlock on the terminal lock cannot keep the run from reporting
-            ths = [threading.Thread(target=cc.hammer, args=("main.t%d" % i, cfg["ops"], seed * 13 + i), daemon=True, name="main.t%d" % i) for i in range(cfg["threads"])]
-            ths.append(threading.Thread(target=cc.hammer, args=("main", cfg["ops"], seed), daemon=True, name="main.hammer"))
+            expect = cfg.get("expect_procs", 0)
+            cc.announce_ready()
+            ths = [threading.Thread(target=cc.hammer, args=("main.t%d" % i, cfg["ops"], seed * 13 + i, True, True, expect), daemon=True, name="main.t%d" % i) for i in range(cfg["threads"])]
+            ths.append(threading.Thread(target=cc.hammer, args=("main", cfg["ops"], seed, True, True, expect), daemon=True, name="main.hammer"))
             for t in ths:
                 t.start()
             procs_lock = threading.Lock()
@@ -229,6 +235,19 @@ def run_shard(shard, env):
         res.count("processes observed", len({w[0][0] for w in intervals}))
         res.count("threads observed", len({w[0] for w in intervals}))
         res.count("start method " + cfg["method"])
+        # which processes were really at work at the same time (spans of the rendezvous phase)
+        spans = {}
+        for who, t0, t1, tag in intervals:
+            if tag.endswith("/all"):
+                lvl = "grandchild" if ".g" in tag else "child" if tag.startswith("c") else "root"
+                a = spans.setdefault((who[0], lvl), [t0, t1])
+                a[0], a[1] = min(a[0], t0), max(a[1], t1)
+        keys = sorted(spans)
+        for i, a in enumerate(keys):
+            for b in keys[i + 1 :]:
+                if spans[a][0] < spans[b][1] and spans[b][0] < spans[a][1]:
+                    res.count("process pairs at work simultaneously: %s + %s (%s)" % (a[1], b[1], cfg["method"]))
+                    res.count("process pairs at work simultaneously")
         if ctx:
             res.count("line-level yield events", ctx.events)
         case = dict(cfg=cfg, seed=shard["seed"], index=shard["index"])
